@@ -12,6 +12,7 @@ import (
 	"sync/atomic"
 
 	"github.com/datastax/go-cassandra-native-protocol/frame"
+	"github.com/datastax/go-cassandra-native-protocol/message"
 	"github.com/datastax/go-cassandra-native-protocol/primitive"
 
 	"verif/fcheck"
@@ -22,11 +23,11 @@ import (
 func main() {
 	c := vlib.New("C01", "model_checking")
 	o := fcheck.Opts(c)
-	var evals, encoded int64
+	var evals, encoded, extra int64
 	var mu sync.Mutex
 	distinct := map[uint64]struct{}{}
 	kinds := map[string]int{}
-	n := fcheck.ForEach(c, o, func(cs gen.Case) {
+	one := func(cs gen.Case) {
 		v := cs.Frame.Header.Version
 		for _, comp := range fcheck.Compressions(v) {
 			codec := fcheck.Codec(comp)
@@ -62,6 +63,22 @@ func main() {
 				kinds[fcheck.BaseName(cs.Name)]++
 				mu.Unlock()
 				wire := append([]byte{}, buf.Bytes()...)
+				lz4cause := func() string {
+					if !cf || comp != primitive.CompressionLz4 {
+						return ""
+					}
+					hl := 9
+					if v == gen.V2 {
+						hl = 8
+					}
+					plain := gen.Clone(orig).(*frame.Frame)
+					plain.Header.Flags &^= primitive.HeaderFlagCompressed
+					pb := &bytes.Buffer{}
+					if err := codec.EncodeFrame(plain, pb); err != nil || len(wire) < hl+4 {
+						return ""
+					}
+					return fcheck.LZ4Cause(pb.Bytes()[hl:], wire[hl+4:])
+				}
 				var got *frame.Frame
 				if pv, site := vlib.Catch(func() { got, err = codec.DecodeFrame(bytes.NewReader(wire)) }); pv != nil {
 					keys["kind"], keys["site"] = "decode-panic", site
@@ -70,11 +87,17 @@ func main() {
 				}
 				if err != nil {
 					keys["kind"], keys["error"] = "decode-error", fcheck.ErrClass(err)
+					if cause := lz4cause(); cause != "" {
+						keys = map[string]string{"kind": "lz4-corrupt-block", "cause": cause}
+					}
 					c.Violation(keys, fmt.Sprintf("%s (%s, compressed=%v): encoded frame does not decode: %v\n%s", cs.Name, comp, cf, err, gen.Describe(orig.Body.Message)), replay(cs, comp, cf, wire))
 					continue
 				}
 				if d := gen.Equal(orig, got, fcheck.Ignore); d != "" {
 					keys["kind"], keys["diff"], keys["msg"] = "mismatch", fcheck.DiffClass(d), fcheck.Kind(cs.Name)
+					if cause := lz4cause(); cause != "" {
+						keys = map[string]string{"kind": "lz4-corrupt-block", "cause": cause}
+					}
 					c.Violation(keys, fmt.Sprintf("%s (%s, compressed=%v): decoded frame differs at %s\n sent: %s\n got:  %s", cs.Name, comp, cf, d, gen.Describe(orig.Body.Message), gen.Describe(got.Body.Message)), replay(cs, comp, cf, wire))
 				}
 			}
@@ -82,7 +105,31 @@ func main() {
 		if n := atomic.LoadInt64(&evals); n%50000 == 0 {
 			c.Sample(map[string]interface{}{"case": cs.Name, "message": gen.Describe(cs.Frame.Body.Message)})
 		}
+	}
+	n := fcheck.ForEach(c, o, one)
+	// bodies of every content class (ratios below 1 to ~250:1, and blocks repeated at the edge of
+	// LZ4's 64 KiB window), larger than one window, in a request and in a response of every version
+	type big struct {
+		v     gen.V
+		class string
+		size  int
+	}
+	var bigs []big
+	for _, v := range gen.Versions {
+		for _, class := range gen.PayloadClasses {
+			for _, size := range []int{70000, 140000} {
+				bigs = append(bigs, big{v, class, size})
+			}
+		}
+	}
+	vlib.ParFor(len(bigs), func(i int) {
+		b := bigs[i]
+		p := gen.Payload(b.size, b.class)
+		one(gen.Case{Name: fmt.Sprintf("%v/AUTH_RESPONSE/token=%s[%d]", b.v, b.class, b.size), Frame: frame.NewFrame(b.v, 1, &message.AuthResponse{Token: p})})
+		one(gen.Case{Name: fmt.Sprintf("%v/RESULT.Rows/cell=%s[%d]", b.v, b.class, b.size), Frame: frame.NewFrame(b.v, 1, &message.RowsResult{Metadata: &message.RowsMetadata{ColumnCount: 1}, Data: message.RowSet{{p}}})})
+		atomic.AddInt64(&extra, 2)
 	})
+	n += extra
 	c.Sample(map[string]interface{}{"case": "first", "note": "cases are named version/KIND.variant/fieldpath=alternative"})
 	c.Set("states", int64(len(distinct)))
 	c.Set("transitions", evals)
